@@ -30,10 +30,6 @@ def run(tier):
             c = part[i]
             comp, _, cl = clause.partition(':')
             key = 'instr:%s:%s:%s' % (c['key'], comp, cl)
-            if comp == 'od' and cl == 'len' and c['key'][:2] in ('DD', 'FD') and 'CB' not in c['key']:
-                key = 'instr:prefix-nop:od:len'
-            if comp == 'timing' and cl == 'exception':
-                key = 'instr:ED-variant:timing:exception'
             rep.violation(key, '%s at %d (opts %s): component %s clause %s; sk=%s tu=%s od=%s'
                           % (c['key'], c['pc'], ','.join(c['opts']), comp, cl, c['sk'], c['tu'], c['od']), c)
     for c in cases:
